@@ -35,6 +35,8 @@ func main() {
 		cmdParse(os.Args[2:])
 	case "proc":
 		cmdProc(os.Args[2:])
+	case "api":
+		cmdApi(os.Args[2:])
 	case "alone":
 		drv.AloneMain()
 	default:
@@ -445,4 +447,58 @@ func cmdProc(args []string) {
 	}
 	of.Close()
 	fmt.Printf("RAN scenarios=%d inconclusive=%d drift=%d\n", len(scs), nInc, nDrift)
+}
+
+func cmdApi(args []string) {
+	fs := flag.NewFlagSet("api", flag.ExitOnError)
+	scen := fs.String("scen", "", "scenario ndjson file")
+	out := fs.String("out", "", "trace ndjson output")
+	par := fs.Int("par", 16, "parallel instances")
+	fs.Parse(args)
+	f, err := os.Open(*scen)
+	if err != nil {
+		fatal(err)
+	}
+	var scs []drv.ApiScenario
+	rd := bufio.NewScanner(f)
+	rd.Buffer(make([]byte, 1<<20), 1<<26)
+	for rd.Scan() {
+		var sc drv.ApiScenario
+		if err := json.Unmarshal(rd.Bytes(), &sc); err != nil {
+			fatal(err)
+		}
+		scs = append(scs, sc)
+	}
+	f.Close()
+	res := make([][]drv.Ev, len(scs))
+	inc := make([]string, len(scs))
+	var wg sync.WaitGroup
+	sem := make(chan struct{}, *par)
+	for i := range scs {
+		wg.Add(1)
+		sem <- struct{}{}
+		go func(i int) {
+			defer wg.Done()
+			defer func() { <-sem }()
+			res[i], inc[i] = drv.RunApi(scs[i])
+		}(i)
+	}
+	wg.Wait()
+	of, err := os.Create(*out)
+	if err != nil {
+		fatal(err)
+	}
+	ninc := 0
+	for i := range scs {
+		if inc[i] != "" {
+			ninc++
+			fmt.Printf("INCONCLUSIVE tr=%d %s\n", scs[i].Tr, inc[i])
+			continue
+		}
+		if err := drv.WriteTrace(of, res[i]); err != nil {
+			fatal(err)
+		}
+	}
+	of.Close()
+	fmt.Printf("RAN scenarios=%d inconclusive=%d\n", len(scs), ninc)
 }
